@@ -58,7 +58,22 @@ fn reference(inp: &[u8], protected: &[u8]) -> ([u8; MAXN], usize, bool) {
 }
 
 fn requote_lemma(n: usize, protected: &'static [u8]) {
+    requote_lemma_over(n, protected, false)
+}
+
+/// `alphabet`: restrict every byte to {'%','2','5','F','B','4','1','x','/','+'} — the classes the
+/// decoder distinguishes (escape introducer, hex digits that form protected and unprotected values, a
+/// non-hex byte, the protected bytes themselves).  Used for the longer strings, where the full 256^n
+/// space does not finish; stated as a bound in the evidence.
+fn requote_lemma_over(n: usize, protected: &'static [u8], alphabet: bool) {
     let bytes: [u8; MAXN] = kani::any();
+    if alphabet {
+        let mut i = 0;
+        while i < MAXN {
+            kani::assume(matches!(bytes[i], b'%' | b'2' | b'5' | b'F' | b'B' | b'4' | b'1' | b'x' | b'/' | b'+'));
+            i += 1;
+        }
+    }
     let q = Quoter::new(&[], protected);
     let r = q.requote(&bytes[..n]);
     let (want, wl, changed) = reference(&bytes[..n], protected);
@@ -110,11 +125,38 @@ fn c10_requote_len0_2() {
     requote_lemma(2, b"%/+");
 }
 
+// @timeout 2400
 #[kani::proof]
 #[kani::stub(tracing::callsite::DefaultCallsite::register, stub_tracing_register)]
 #[kani::unwind(8)]
 fn c10_requote_len3() {
     requote_lemma(3, b"%/+");
+}
+
+// @timeout 2400
+#[kani::proof]
+#[kani::stub(tracing::callsite::DefaultCallsite::register, stub_tracing_register)]
+#[kani::unwind(8)]
+fn c10_requote_alphabet_len4() {
+    requote_lemma_over(4, b"%/+", true);
+}
+
+// @timeout 3000
+// @mem 30
+#[kani::proof]
+#[kani::stub(tracing::callsite::DefaultCallsite::register, stub_tracing_register)]
+#[kani::unwind(8)]
+fn c10_requote_alphabet_len5_t() {
+    requote_lemma_over(5, b"%/+", true);
+}
+
+// @timeout 3000
+// @mem 30
+#[kani::proof]
+#[kani::stub(tracing::callsite::DefaultCallsite::register, stub_tracing_register)]
+#[kani::unwind(8)]
+fn c10_requote_alphabet_len6_t() {
+    requote_lemma_over(6, b"%/+", true);
 }
 
 // @timeout 3000
